@@ -91,39 +91,41 @@ Section Contract.
   Theorem win_contract_ok : forall (before : fs) (o : op) (last : bytes),
     op_names_ok o = true -> op_ok before o = true ->
     let after := apply_op before o in
-    (forall p, isdir (abspath root p) = fs_isdir after p) ->
+    (forall p, In p (op_paths o) -> isdir (abspath root p) = fs_isdir after p) ->
     queue_events isdir walk recursive root last (map render_native (win_kernel o))
     = (map (render root) (win_contract sub recursive after o), state_after last o, false).
   Proof.
-    intros before o last Hnames Hok after Hisdir.
+    intros before o last Hnames Hok after Hisdir'.
+    assert (Hisdir : forall p, In p (op_paths o) -> isdir (abspath root p) = fs_isdir after p) by exact Hisdir'.
+    clear Hisdir'.
     unfold queue_events.
     destruct o as [p i|p i|p|p|p|p|s d|s|d k i content]; cbn [win_kernel map batch_go]; unfold render_native; cbn [fst snd];
       cbn [op_names_ok] in Hnames.
     - (* create *)
       apply path_ok_split in Hnames as [Hp Hv].
       rewrite step_added. cbv zeta. rewrite join_rel by assumption.
-      rewrite Hisdir. unfold after. cbn [apply_op]. rewrite isdir_new_entry by (apply (fresh_not_mem _ _ _ Hok)).
+      rewrite Hisdir by (now left). unfold after. cbn [apply_op]. rewrite isdir_new_entry by (apply (fresh_not_mem _ _ _ Hok)).
       reflexivity.
     - (* mkdir *)
       apply path_ok_split in Hnames as [Hp Hv].
       rewrite step_added. cbv zeta. rewrite join_rel by assumption.
-      rewrite Hisdir. unfold after at 1 2. cbn [apply_op]. rewrite isdir_new_entry by (apply (fresh_not_mem _ _ _ Hok)).
+      rewrite Hisdir by (cbn; auto). unfold after at 1 2. cbn [apply_op]. rewrite isdir_new_entry by (apply (fresh_not_mem _ _ _ Hok)).
       cbn [kind_eqb dirkind andb win_contract map render app].
       destruct recursive; [|reflexivity].
       rewrite sub_created_abs by assumption. cbn [app orb]. now rewrite app_nil_r.
     - (* write *)
       apply path_ok_split in Hnames as [Hp Hv].
-      rewrite step_modified, join_rel by assumption. now rewrite Hisdir.
+      rewrite step_modified, join_rel by assumption. now rewrite Hisdir by (now left).
     - (* chmod *)
       apply path_ok_split in Hnames as [Hp Hv].
-      rewrite step_modified, join_rel by assumption. now rewrite Hisdir.
+      rewrite step_modified, join_rel by assumption. now rewrite Hisdir by (now left).
     - apply path_ok_split in Hnames as [Hp Hv]. now rewrite step_removed, join_rel by assumption.
     - apply path_ok_split in Hnames as [Hp Hv]. now rewrite step_removed, join_rel by assumption.
     - (* rename inside the tree *)
       apply andb_true_iff in Hnames as [Hs Hd].
       apply path_ok_split in Hs as [Hs Hsv]. apply path_ok_split in Hd as [Hd Hdv].
       rewrite step_old, step_new. cbv zeta. rewrite !join_rel by assumption.
-      rewrite Hisdir. cbn [win_contract]. destruct (fs_isdir after d); [|reflexivity].
+      rewrite Hisdir by (cbn; auto). cbn [win_contract]. destruct (fs_isdir after d); [|reflexivity].
       destruct recursive; [|reflexivity].
       rewrite sub_moved_abs by assumption. cbn [app orb]. now rewrite app_nil_r.
     - apply path_ok_split in Hnames as [Hp Hv]. now rewrite step_removed, join_rel by assumption.
@@ -131,7 +133,7 @@ Section Contract.
       apply andb_true_iff in Hnames as [Hnames _].
       apply path_ok_split in Hnames as [Hp Hv].
       rewrite step_added. cbv zeta. rewrite join_rel by assumption.
-      rewrite Hisdir. unfold after at 1 2. cbn [apply_op].
+      rewrite Hisdir by (cbn; auto). unfold after at 1 2. cbn [apply_op].
       rewrite isdir_new_head by (cbn [op_ok] in Hok; apply andb_true_iff in Hok as [Hok _];
                                  apply andb_true_iff in Hok as [Hok _];
                                  apply andb_true_iff in Hok as [Hok _]; apply (fresh_not_mem _ _ _ Hok)).
@@ -183,7 +185,7 @@ Theorem win_contract_cut_ok :
   forall (before : fs) (o : op) (last : bytes) (reads : list (list native)),
   op_names_ok o = true -> op_ok before o = true ->
   let after := apply_op before o in
-  (forall p, isdir (abspath root p) = fs_isdir after p) ->
+  (forall p, In p (op_paths o) -> isdir (abspath root p) = fs_isdir after p) ->
   concat reads = map render_native (win_kernel o) ->
   queue_events_seq isdir walk recursive root last reads
   = (map (render root) (win_contract sub recursive after o), state_after root last o, false).
